@@ -199,8 +199,12 @@ def handleLine (st : State) (line : String) : State × String :=
           (t.data == b!"del" || t.data == b!"ins") && t.attrs.any (·.key == b!"cite"))
       let bad := inClass && o1 != o2
       let unstable := (urlAttrVals o1).any fun v => (Url.parse v).map Url.print != some v
+      -- the two passes agree except for the position of rel / target among the attributes of a tag
+      let reordered := sameUpToForcedAttrOrder (tokenize o1) (tokenize o2)
       (st, verdict (m1 == o1 && m2 == o2) (hexField m1 ++ "/" ++ hexField m2)
-        (if bad then ["C20"] else []) (if bad && unstable then ["C20:url-reprint-unstable"] else []))
+        (if bad then ["C20"] else [])
+        (if bad && unstable then ["C20:url-reprint-unstable"]
+         else if bad && reordered then ["C20:forced-attr-order"] else []))
     | _, _, _, _ => (st, "bad-idem")
   | ["entry", pid, inp, oS, oB, oR, oW, oW2, okf, _mode] =>
     match getPolicy st pid, unhexField inp, unhexField oS, unhexField oB, unhexField oR, unhexField oW, unhexField oW2 with
